@@ -151,13 +151,25 @@ func (f *ksFixture) Generate(kind, id string) error {
 	return fmt.Errorf("kshist: unknown key kind %q", kind)
 }
 
+// WipeReturnedKeys makes the fixtures zeroise every symmetric key the keystore hands out once they have copied
+// it, as acra's own callers do (hmac.GenerateHMAC, HashData.IsEqual, the AcraBlock and token encryptors wipe the
+// key they were given): a keystore has to hand every caller a private copy. Off by default; the property
+// packages that read through one handle from several goroutines switch it on.
+var WipeReturnedKeys bool
+
 func (f *ksFixture) Current(kind, id string) (KeyVal, error) {
 	ks := f.h.ks
 	sym := func(b []byte, err error) (KeyVal, error) {
 		if err != nil {
 			return KeyVal{}, err
 		}
-		return KeyVal{Secret: cp(b)}, nil
+		v := KeyVal{Secret: cp(b)}
+		if WipeReturnedKeys {
+			for i := range b {
+				b[i] = 0
+			}
+		}
+		return v, nil
 	}
 	switch kind {
 	case StoragePair:
